@@ -317,7 +317,7 @@ def run(ctx):
                        "re-pointing the delegate, deleting local values (present or not); a case is "
                        "non-trivial if some step notified a handler or raised; distinct = distinct configuration+history")
     rnd = random.Random(ctx.seed)
-    n, maxlen = (1200, 10) if ctx.tier == "quick" else (6000, 20)
+    n, maxlen = (1200, 10) if ctx.tier == "quick" else (12000, 20)
     if ctx.replay:
         cases = [json.load(open(ctx.replay))["replay"]["case"]]
     else:
